@@ -20,6 +20,10 @@ META = {
     "kind": "K/L", "functions": ["as h_e_classification, sid1 and sid2 the same segment"],
     "bounds": "as h_e_classification with sid1 == sid2", "timeout": {"quick": 150, "thorough": 600},
     "parts": {"quick": 4, "thorough": 4}},
+  "h_identical_parallel": {"kind": "L",
+    "functions": ["Segment.neighbours/neighbours_L/neighbours_R/containers/contained (de-duplication by line)", "Gfa.add_line", "edge references"],
+    "bounds": "1..3 verbatim copies of an anonymous edge (GFA2 dovetail E, GFA2 containment E, GFA1 C line) x 4 orientation pairs: every copy is a distinct edge and appears once in the derived answers",
+    "timeout": {"quick": 200, "thorough": 300}},
   "h_lcg_keys": {
     "kind": "L", "functions": ["gfapy.line.edge.gfa1.references.References._initialize_references",
                                "gfapy.line.gap.references.References._refkey_for_s", "FromTo.from_end/to_end",
@@ -120,6 +124,44 @@ NPART = vp.NPART
 PART = vp.PART
 
 KINDS = ["L", "C", "G"]
+
+def h_identical_parallel(kind: int, p1: bool, p2: bool, n: int) -> bool:
+  """
+  pre: 0 <= kind < 3 and 1 <= n <= 3
+  post: _ == True
+  """
+  vp.enter("ip")
+  k = vp.concretize(kind, 0, 2)
+  o1 = "+" if p1 else "-"
+  o2 = "+" if p2 else "-"
+  nn = vp.concretize(n, 1, 3)
+  # lines without an identifier may be repeated verbatim: each is a distinct edge
+  if k == 0:
+    doc = ["S\ta\t100\t*", "S\tb\t100\t*", "S\tc\t100\t*"]
+    (b1, e1), (b2, e2) = (("70", "100$") if o1 == "+" else ("0", "30")), (("0", "30") if o2 == "+" else ("70", "100$"))
+    line = "E\t*\ta" + o1 + "\tb" + o2 + "\t" + b1 + "\t" + e1 + "\t" + b2 + "\t" + e2 + "\t*"
+  elif k == 1:
+    doc = ["S\ta\t100\t*", "S\tb\t100\t*", "S\tc\t100\t*"]
+    line = "E\t*\ta" + o1 + "\tb" + o2 + "\t10\t40\t0\t100$\t*"
+  else:
+    doc = ["S\ta\t*", "S\tb\t*", "S\tc\t*"]
+    line = "C\ta\t" + o1 + "\tb\t" + o2 + "\t5\t*"
+  with NoTracing():
+    g = gfapy.Gfa(doc)
+  for _ in range(nn):
+    g.add_line(line)
+  vp.reached("ip", k, o1, o2, nn)
+  a, b = g.segment("a"), g.segment("b")
+  with NoTracing():
+    if nbhd.check(g): return False
+  if k == 0:
+    if len(a.neighbours) != nn or len(b.neighbours) != nn: return False
+    if len(g.dovetails) != nn: return False
+  else:
+    if len(a.contained) != nn or len(b.containers) != nn: return False
+    if not all(x is b for x in a.contained) or not all(x is a for x in b.containers): return False
+    if len(g.containments) != nn: return False
+  return True
 
 def h_lcg_keys(kind: int, p1: bool, p2: bool, selfedge: bool, twice: bool) -> bool:
   """
